@@ -106,13 +106,15 @@ Section Refine.
     - subst r. reflexivity.
   Qed.
 
-  Lemma rel_while (body : state -> res val) (obody : state -> ores) c :
+  Lemma rel_while (body : state -> res val) (obody : state -> ores) c l :
     (forall s, bal_s s (body s)) ->
     (forall s, wf s -> top_ret s = None -> rel (body s) (obody s)) ->
-    forall j st, wf st -> top_ret st = None -> rel (while_loop ev body c j st) (o_while ev obody c j st).
+    forall j st, wf st -> top_ret st = None -> rel (while_loop ev body c l j st) (o_while ev obody c l j st).
   Proof.
-    intros Hbal Hb. induction j as [|j IH]; intros st W T; cbn [while_loop o_while]; [reflexivity|].
-    apply (rel_ebind st); [exact W|exact T|apply Hev|]. intros cv s1 W1 T1.
+    intros Hbal Hb. induction j as [|j IH]; intros st W0 T0; cbn [while_loop o_while]; [reflexivity|].
+    assert (W : wf (set_line st l)) by (apply (R_wf_ok_s st), R_ok_s_set_line; exact W0).
+    assert (T : top_ret (set_line st l) = None) by (rewrite top_ret_set_line; exact T0).
+    apply (rel_ebind (set_line st l)); [exact W|exact T|apply Hev|]. intros cv s1 W1 T1.
     destruct cv; try (split; reflexivity). destruct b; [|split; [reflexivity|exact T1]].
     pose proof (rel_after_pass s1 (body s1) (obody s1) W1 (Hbal s1) (Hb s1 W1 T1)) as H.
     destruct (obody s1) as [[v|v| | |e] s2| |w].
